@@ -305,6 +305,8 @@ class DensityTauNative:
         for kset in (([[0.0, 0.0, 0.0], [0.2, 0.1, 0.05], [0.1, -0.3, 0.2]], [0.2, 0.3, 0.5]), ([[0.21, -0.13, 0.17]], [1.0]),
                      dict(kind="a 2x1x1 mesh with a shift (kpts.kshift)", kmesh=[2, 1, 1], kshift=[0.1, 0.05, 0.2]),
                      dict(kind="a single shifted mesh point", kmesh=[1, 1, 1], kshift=[0.15, -0.1, 0.05]),
+                     dict(kind="a 3x1x1 Monkhorst-Pack mesh reduced by trs() after a first build, then built again", kmesh=[3, 1, 1], kshift=[0.0, 0.0, 0.0], trs=True),
+                     dict(kind="weights assigned on the k-point object of a built Atoms object (atoms.kpts.wk = ...)", kmesh=[3, 1, 1], kshift=[0.0, 0.0, 0.0], assign_wk=[0.2, 0.3, 0.5]),
                      dict(kind="37 states per k-point and spin", states=37), dict(kind="45 states per k-point and spin", states=45)):
             bad += self.one(seed, kset, Atoms, xp, orth, get_n_spin, get_n_total, get_n_single, get_tau, get_Ekin)
         return bad
@@ -325,7 +327,16 @@ class DensityTauNative:
         else:
             label = f"{len(kset[1])} k-point(s) set by set_k"
             at.set_k(*kset)
+        if isinstance(kset, dict) and kset.get("trs"):
+            at.kpts.gamma_centered = False
+            at.build()
+            at.kpts.trs()
         at.build()
+        if isinstance(kset, dict) and kset.get("assign_wk"):
+            # the public setter of the k-point object, after the build: the k-weighted sums of every quantity follow the weights of the k-point object
+            at.kpts.wk = kset["assign_wk"]
+        if isinstance(kset, dict) and kset.get("trs") and at.kpts.Nk != 2:
+            raise RuntimeError("harness: the reduced mesh does not have two k-points")
         if isinstance(kset, dict) and "states" in kset and at.occ.Nstate != kset["states"]:
             raise RuntimeError("harness: the requested number of states was not set up")
         W = [xp.asarray(rng.standard_normal((2, len(at.Gk2c[ik]), at.occ.Nstate)) + 1j * rng.standard_normal((2, len(at.Gk2c[ik]), at.occ.Nstate))) for ik in range(at.kpts.Nk)]
